@@ -871,6 +871,21 @@ func (vc *VC) evalCall(x *SCall, env *Env) TV {
 			return vc.specConvert(vc.evalSpec(x.Args[0], env), goTy(tn.Type()))
 		}
 	}
+	// macro: expanded in the caller's environment
+	if m, ok := vc.specs.Macros[x.Fn]; ok {
+		if len(m.Params) != len(x.Args) {
+			specFail("macro %s: wrong number of arguments", x.Fn)
+		}
+		e2 := *env
+		e2.bound = map[string]TV{}
+		for k, v := range env.bound {
+			e2.bound[k] = v
+		}
+		for i, p := range m.Params {
+			e2.bound[p] = vc.evalSpec(x.Args[i], env)
+		}
+		return vc.evalSpec(m.Body, &e2)
+	}
 	// spec function
 	if fn, ok := vc.specs.Fns[x.Fn]; ok {
 		vc.useSpecFn(x.Fn, env.pkg)
